@@ -121,7 +121,7 @@ def run(pid: str, tier: str, seed: int, known: Any) -> Dict[str, Any]:
     fams = FAMILIES.get(pid)
     # the limit grows with the number of control shapes, so that adding a shape does not thin out the others
     nshapes = len(gen.SHAPES)
-    limit, cap = (140 * nshapes, 40) if tier == "quick" else (2000 * nshapes, 200)
+    limit, cap = (140 * nshapes, 40) if tier == "quick" else (6000 * nshapes, 200)
     if fams is not None and tier == "quick":
         limit = 85 * nshapes
     jobs = [(p["name"], p["src"], cap) for p in gen.programs(2, seed=seed, limit=limit, families=fams)]
